@@ -76,4 +76,5 @@ package atree
 //@ iface Value.Storable(storage, address, maxInlineSize) (st, err)
 //@   ensures err == nil ==> st != nil && bs(st) <= maxInlineSize
 //@   ensures err != nil ==> st == nil
+//@   ensures forall id SlabID :: old(sto[id]) != nil && old(sto[id]) != valueRoot(recv) ==> sto[id] == old(sto[id])
 //@   modifies ghost.sto, ghost.stored, ghost.touched, alloc, as(valueRoot(recv), *ArrayDataSlab).header, as(valueRoot(recv), *ArrayDataSlab).inlined, as(valueRoot(recv), *MapDataSlab).header, as(valueRoot(recv), *MapDataSlab).inlined
